@@ -332,6 +332,39 @@ theorem configure_spec (papply : P → Assoc K V → Assoc K V) (s : State K V P
     s'.loggers = s.loggers ∧ s'.cv = s.cv ∧ s'.out = s.out := by
   cases e <;> cases p <;> simp [step, merge_nil_left]
 
+/-! ### objects the caller keeps: the configure(extra=) dict -/
+
+/-- what `configure(extra=d)` leaves as the base layer: a dict of its own (`owned`, the contents at
+the time of the call), or a reference to the caller's dict object (`shared`) -/
+inductive BaseLayer (K V : Type) where
+  | owned (d : Assoc K V)
+  | shared (ref : Nat)
+
+/-- `copies = true`: `core.extra.clear(); core.extra.update(extra)` (or `= dict(extra)`);
+`copies = false`: `core.extra = extra` -/
+def configureBase (copies : Bool) (heap : Nat → Assoc K V) (ref : Nat) : BaseLayer K V :=
+  if copies then .owned (merge [] (heap ref)) else .shared ref
+
+/-- the base layer a later logging call reads, given the caller-owned dicts as they are THEN -/
+def readBase (heap : Nat → Assoc K V) : BaseLayer K V → Assoc K V
+  | .owned d => d
+  | .shared ref => heap ref
+
+/-- `caller_mutation_invisible`: whatever the caller does afterwards to the dict it passed to
+`configure(extra=)` (and to any other dict it owns) – add, change, delete keys, `clear()` – the base
+layer of every later record is what the dict held at the time of the call.  (Rests on the regenerated
+`Gen.configureCopies`.) -/
+theorem caller_mutation_invisible (heap heap' : Nat → Assoc K V) (ref : Nat) :
+    readBase heap' (configureBase Gen.configureCopies heap ref) = heap ref := by
+  simp [configureBase, Gen.configureCopies, readBase, merge_nil_left]
+
+/-- refutation of the aliasing shape (`core.extra = extra`): for EVERY later state of the caller's
+dict that differs from the one passed, the base layer read afterwards is the mutated dict, not the
+one that was configured -/
+theorem configure_alias_refuted (heap heap' : Nat → Assoc K V) (ref : Nat) (h : heap' ref ≠ heap ref) :
+    readBase heap' (configureBase false heap ref) ≠ heap ref := by
+  simpa [configureBase, readBase] using h
+
 /-! ### non-vacuity -/
 
 /-- a trace with two contexts, overlapping keys, a block left by an exception while another
